@@ -27,6 +27,27 @@ A = "allocator::Allocator::"
 ALLOWED_MUT = {"push", "extend_from_slice", "extend_from_within", "reserve", "truncate"}
 
 
+def atom_content_impls(cr, traits=(("std::hash::Hash", "hash"), ("std::cmp::PartialEq", "eq"), ("std::borrow::Borrow", "borrow"), ("std::ops::Deref", "deref"))):
+    """(fn, method, ok, callees) per trait impl of Atom that must see the atom only as its bytes: the method's calls are
+    as_ref() and the slice implementation, nothing else (so two representations of the same bytes are indistinguishable)"""
+    out = []
+    for trait, method in traits:
+        h = None
+        for im in cr.impls:
+            if im["trait"] == trait and im["for"].startswith("allocator::Atom<"):
+                for m in im["methods"]:
+                    if m["name"] == method:
+                        h = cr.fn(m["path"])
+        if h is None:
+            raise mir.AnchorMissing(f"impl {trait} for Atom not found")
+        callees = sorted((t.get("callee") or "?") for _, t in h.calls())
+        ok = bool(callees) and all(c.endswith("AsRef<[u8]>>::as_ref") or "impl" in c and "[" in c or c.startswith("core::slice::") or
+                                   c.startswith("<[u8]") or c.startswith("<[T]") or "for [T]" in c or "for [A]" in c for c in callees) and \
+            any(c.endswith("AsRef<[u8]>>::as_ref") for c in callees)
+        out.append((h, method, ok, callees))
+    return out
+
+
 def run(ctx):
     ck = ctx.check
     cr = ctx.crate("default")
@@ -200,20 +221,8 @@ def run(ctx):
           detail={"lines": len(X)} if i is None else {"first difference": [X[i] if i < len(X) else None, Y[i] if i < len(Y) else None]})
 
     # ---------------------------------------------------------------- R14e
-    for trait, method in (("std::hash::Hash", "hash"), ("std::cmp::PartialEq", "eq"), ("std::borrow::Borrow", "borrow"), ("std::ops::Deref", "deref")):
-        h = None
-        for im in cr.impls:
-            if im["trait"] == trait and im["for"].startswith("allocator::Atom<"):
-                for m in im["methods"]:
-                    if m["name"] == method:
-                        h = cr.fn(m["path"])
-        if h is None:
-            raise mir.AnchorMissing(f"impl {trait} for Atom not found")
+    for h, method, ok, callees in atom_content_impls(cr):
         ck.analysed(h)
-        callees = sorted((t.get("callee") or "?") for _, t in h.calls())
-        ok = bool(callees) and all(c.endswith("AsRef<[u8]>>::as_ref") or "impl" in c and "[" in c or c.startswith("core::slice::") or
-                                   c.startswith("<[u8]") or c.startswith("<[T]") or "for [T]" in c or "for [A]" in c for c in callees) and \
-            any(c.endswith("AsRef<[u8]>>::as_ref") for c in callees)
         ck.ob("R14e", h.path, ok, f"Atom::{method} goes through as_ref() and the slice implementation only", site=h.where(0), detail=callees)
     # atom_eq
     ae = cr.fn(A + "atom_eq")
